@@ -30,6 +30,17 @@ BAD = [
     # diagnosed while parsing a dedented block body / by the argument validator
     ("brace-in-if", ["@if f:", "  text {unclosed", "@endif"], 1), ("brace-in-for", ["@for it in ys:", "  text } stray", "@endfor"], 1),
     ("unknown-target", ["+ [go] -> Nowhere9"], 0), ("surplus-args", ["+ [go] -> Start(1)"], 0),
+    # block directives diagnosed one and two @if levels down
+    ("if-colon-d1", ["@if f:", "  @if g", "  @endif", "@endif"], 1),
+    ("if-colon-d2", ["@if f:", "  @if g:", "    @if f", "    @endif", "  @endif", "@endif"], 2),
+    ("elif-colon-d2", ["@if f:", "  @if g:", "    A", "  @elif f", "    B", "  @endif", "@endif"], 3),
+    ("else-colon-d2", ["@if f:", "  @if g:", "    A", "  @else", "    B", "  @endif", "@endif"], 3),
+    ("endif-colon-d2", ["@if f:", "  @if g:", "    A", "  @endif:", "@endif"], 3),
+    ("py-colon-d2", ["@if f:", "  @if g:", "    @py", "    @endpy", "  @endif", "@endif"], 2),
+    ("for-colon-d2", ["@if f:", "  @if g:", "    @for it in ys", "    @endfor", "  @endif", "@endif"], 2),
+    ("if-colon-in-for", ["@for it in ys:", "  A", "  @if g", "  @endif", "@endfor"], 2),
+    ("py-colon-in-for", ["@for it in ys:", "  A", "  @py", "  @endpy", "@endfor"], 2),
+    ("elif-colon-d3", ["@if f:", "  @if g:", "    @if f:", "      A", "    @elif g", "      B", "    @endif", "  @endif", "@endif"], 4),
 ]
 # constructs whose error stands at the opening line and which swallow the rest of the file
 UNCLOSED = [("if-unclosed", ["@if f:", "A"], 0), ("for-unclosed", ["@for it in ys:", "A"], 0), ("py-unclosed", ["@py:", "x = 1"], 0)]
